@@ -1,3 +1,126 @@
-(* C11 property theorems: statements only, each closed by [exact]. (in progress) *)
+(* C11 property theorems: statements only, each closed by [exact].
+
+   Everything is stated for an ARBITRARY matcher [lookup] (any function from
+   methods to "route + tsr flag"), an arbitrary route type with arbitrary
+   per-route trailing-slash options, an arbitrary pooled context [c0] and
+   arbitrary parameter slices left behind by the failed match.  The only
+   hypotheses are
+     roots_cover      the matcher finds routes only under existing method roots,
+     has_routes_def   "method m has routes" is read off tree.root,
+     cleanfn_correct  (dispatch_correct only) CleanPath computes the canonical
+                      form [clean] -- C17's cleanpath_correct. *)
 From FoxBase Require Import Bytes.
-From FoxDispatch Require Import Dispatch Redirect DispatchSpec Uri.
+From FoxDispatch Require Import Dispatch Redirect DispatchSpec DispatchProofs DispatchTheorems Examples.
+
+(* "the options handler runs with Allow listing exactly the methods that have a
+   route serving that host and path ... plus OPTIONS - for the target '*', every
+   method that has routes"; "the no-method handler runs with Allow listing
+   exactly the other such methods"; no Allow header otherwise *)
+Theorem C11_allow_exact :
+  forall (R : Type) (ignoreTS redirectTS : R -> bool) (cleanfn : bytes -> cres) (opts : options) (roots : list root)
+         (lookup : bytes -> option (R * bool)) (has_routes : bytes -> bool),
+  roots_cover roots lookup -> has_routes_def roots has_routes ->
+  forall rq c0 recp rect o,
+  serve_http ignoreTS redirectTS cleanfn opts roots lookup rq c0 recp rect = Done o ->
+  (o_handler o = HOptions ->
+     is_options rq /\ handleOptions opts = true /\
+     exists l, o_allow o = Some l /\
+       lists_exactly l (fun m => options_set ignoreTS has_routes lookup rq m \/ m = mOPTIONS)) /\
+  (o_handler o = HNoMethod ->
+     ~ (is_options rq /\ handleOptions opts = true) /\ handleMethodNotAllowed opts = true /\
+     exists l, o_allow o = Some l /\
+       lists_exactly l (fun m => other_set ignoreTS lookup rq m \/ (handleOptions opts = true /\ m = mOPTIONS))) /\
+  (o_handler o <> HOptions -> o_handler o <> HNoMethod -> o_allow o = None).
+Proof. exact (@allow_exact). Qed.
+Print Assumptions C11_allow_exact.
+
+(* "In these handlers, as in the redirect handler, the context exposes no route,
+   pattern or parameters and reports the corresponding scope" *)
+Theorem C11_special_ctx_scrubbed :
+  forall (R : Type) (ignoreTS redirectTS : R -> bool) (cleanfn : bytes -> cres) (opts : options) (roots : list root)
+         (lookup : bytes -> option (R * bool)) rq c0 recp rect o,
+  serve_http ignoreTS redirectTS cleanfn opts roots lookup rq c0 recp rect = Done o ->
+  (forall r, o_handler o <> HRoute r) ->
+  c_route (o_ctx o) = None /\ ctx_params (o_ctx o) = [] /\ c_tsr (o_ctx o) = false /\
+  c_scope (o_ctx o) = scope_of (o_handler o) /\ scrubbed (observe o) (scope_of (o_handler o)).
+Proof. exact (@special_ctx_scrubbed). Qed.
+Print Assumptions C11_special_ctx_scrubbed.
+
+(* "When no route serves a request, the answer depends only on the router options" *)
+Theorem C11_dispatch_depends_only_on_options :
+  forall (R1 R2 : Type) (ign1 red1 : R1 -> bool) (ign2 red2 : R2 -> bool) (clean1 clean2 : bytes -> cres)
+         (opts : options) (has_routes : bytes -> bool)
+         (roots1 roots2 : list root) (lookup1 : bytes -> option (R1 * bool)) (lookup2 : bytes -> option (R2 * bool))
+         (rq1 rq2 : request) (c1 : ctx R1) (c2 : ctx R2) (rp1 rt1 rp2 rt2 : list param)
+         (o1 : outcome R1) (o2 : outcome R2),
+  roots_cover roots1 lookup1 -> roots_cover roots2 lookup2 ->
+  has_routes_def roots1 has_routes -> has_routes_def roots2 has_routes ->
+  r_method rq1 = r_method rq2 -> (is_star rq1 <-> is_star rq2) ->
+  (forall m, serves ign1 lookup1 m <-> serves ign2 lookup2 m) ->
+  serve_http ign1 red1 clean1 opts roots1 lookup1 rq1 c1 rp1 rt1 = Done o1 ->
+  serve_http ign2 red2 clean2 opts roots2 lookup2 rq2 c2 rp2 rt2 = Done o2 ->
+  (forall r, o_handler o1 <> HRoute r) -> o_handler o1 <> HRedirect ->
+  (forall r, o_handler o2 <> HRoute r) -> o_handler o2 <> HRedirect ->
+  scope_of (o_handler o1) = scope_of (o_handler o2) /\
+  scrubbed (observe o1) (scope_of (o_handler o1)) /\ scrubbed (observe o2) (scope_of (o_handler o2)) /\
+  same_allow (o_allow o1) (o_allow o2).
+Proof. exact dispatch_depends_only_on_options. Qed.
+Print Assumptions C11_dispatch_depends_only_on_options.
+
+(* the answer to an unserved request is the one the property prescribes *)
+Theorem C11_unserved_answer :
+  forall (R : Type) (ignoreTS : R -> bool) (opts : options) (roots : list root)
+         (lookup : bytes -> option (R * bool)) (has_routes : bytes -> bool),
+  roots_cover roots lookup -> has_routes_def roots has_routes ->
+  forall rq c, exists o, special ignoreTS opts roots lookup rq c = Done o /\
+                         unserved_spec ignoreTS opts has_routes lookup rq (observe o).
+Proof. exact (@special_correct). Qed.
+Print Assumptions C11_unserved_answer.
+
+(* the full case analysis of ServeHTTP (C11 + dispatch half of C08) *)
+Theorem C11_dispatch_correct :
+  forall (R : Type) (ignoreTS redirectTS : R -> bool) (cleanfn : bytes -> cres) (opts : options) (roots : list root)
+         (lookup : bytes -> option (R * bool)) (has_routes : bytes -> bool) (clean : bytes -> bytes),
+  roots_cover roots lookup -> has_routes_def roots has_routes -> cleanfn_correct cleanfn clean ->
+  forall rq c0 recp rect,
+  exists o, serve_http ignoreTS redirectTS cleanfn opts roots lookup rq c0 recp rect = Done o /\
+            dispatch_spec ignoreTS redirectTS clean opts has_routes lookup rq
+              (match_params_of lookup rq recp rect) (observe o).
+Proof. exact (@dispatch_correct). Qed.
+Print Assumptions C11_dispatch_correct.
+
+(* ServeHTTP's own code never panics (only CleanPath could; C17 shows it does not) *)
+Theorem C11_serve_total :
+  forall (R : Type) (ignoreTS redirectTS : R -> bool) (cleanfn : bytes -> cres) (opts : options) (roots : list root)
+         (lookup : bytes -> option (R * bool)) rq c0 recp rect,
+  (forall p, exists o, cleanfn p = COk o) ->
+  exists o, serve_http ignoreTS redirectTS cleanfn opts roots lookup rq c0 recp rect = Done o.
+Proof. exact (@serve_total). Qed.
+Print Assumptions C11_serve_total.
+
+(* non-vacuity: a concrete state meets every hypothesis above and reaches the
+   405, OPTIONS (path and "*"), redirect, ignore and 404 answers *)
+Example C11_example_nonvacuous :
+  roots_cover ex_roots ex_lookup /\ has_routes_def ex_roots ex_has_routes /\ cleanfn_correct ex_clean (fun p => p) /\
+  (exists o, serve_http ex_ign ex_red ex_clean ex_opts ex_roots ex_lookup (ex_req mDELETE (S2B "/a")) ex_c0 ex_garbage ex_garbage = Done o /\ o_handler o = HNoMethod) /\
+  (exists o, serve_http ex_ign ex_red ex_clean ex_opts ex_roots ex_lookup (ex_req mOPTIONS (S2B "/a")) ex_c0 ex_garbage ex_garbage = Done o /\ o_handler o = HOptions) /\
+  (exists o, serve_http ex_ign ex_red ex_clean ex_opts ex_roots ex_lookup (ex_req mDELETE (S2B "/zzz")) ex_c0 ex_garbage ex_garbage = Done o /\ o_handler o = HNoMethod) /\
+  (exists o, serve_http ex_ign ex_red ex_clean {| handleMethodNotAllowed := false; handleOptions := false |} ex_roots ex_lookup (ex_req mDELETE (S2B "/a")) ex_c0 ex_garbage ex_garbage = Done o /\ o_handler o = HNoRoute).
+Proof. exact ex_nonvacuous. Qed.
+Print Assumptions C11_example_nonvacuous.
+
+Example C11_example_no_method_allow :
+  serve_http ex_ign ex_red ex_clean ex_opts ex_roots ex_lookup (ex_req mDELETE (S2B "/a")) ex_c0 ex_garbage ex_garbage =
+  Done {| o_handler := HNoMethod;
+          o_ctx := {| c_route := None; c_tsr := false; c_params := []; c_tsrParams := ex_garbage; c_scope := NoMethodHandler |};
+          o_allow := Some [mGET; mPOST; mFOO; mOPTIONS] |}.
+Proof. exact ex_no_method. Qed.
+Print Assumptions C11_example_no_method_allow.
+
+Example C11_example_options_star :
+  serve_http ex_ign ex_red ex_clean ex_opts ex_roots ex_lookup (ex_req mOPTIONS (S2B "*")) ex_c0 ex_garbage ex_garbage =
+  Done {| o_handler := HOptions;
+          o_ctx := {| c_route := None; c_tsr := false; c_params := []; c_tsrParams := ex_garbage; c_scope := OptionsHandler |};
+          o_allow := Some [mGET; mPOST; mPUT; mFOO; mOPTIONS] |}.
+Proof. exact ex_options_star. Qed.
+Print Assumptions C11_example_options_star.
